@@ -13,13 +13,17 @@
          search, Formula::substitute (panics exactly on a sort mismatch), completion of a tau*
          theory (the `expect("tau_star did not create a completable theory")`), and the CLASSIC
          rewrites on parser-image trees (C16_classic_portfolio_no_panic, from Proofs/ParserImage.v).
+     (3) about the recorded stack overflow F20, DEPTH ONLY: the tau* formula of a term nests 2 to 5 nodes per operator
+         of the term (C16_val_depth_linear and three exact chain depths; Proofs/TauDepth.v) - nothing about the Rust stack.
+   The property is also known to be false on F20 (abort on deep nesting) and slower than any watchdog on F15, F21, F22
+   (known_findings.jsonl, docs/C16.md); none of that is provable here.
    Statements that only restated the shape of a result type (C16_status_total,
    C16_tptp_numeral_total, C16_tptp_numeral_never_panics) were removed; the exact classification of
    the prover's output is C10_status_ok / C10_status_missing / C10_status_unknown (Properties/C10.v). *)
 From Coq Require Import List Ascii String ZArith NArith.
 From Anthem Require Import Base.Fresh Syntax.Fol Syntax.Asp Syntax.Tff Model.Limits Proofs.LimitsOk Model.Subst Proofs.SubstOk
   Model.TptpPrint Model.TauStar Model.Completion Proofs.FagesTauStar
-  Model.StrategyCls Model.ClsTerm Proofs.SimplClassicTotal Proofs.ParserImage.
+  Model.StrategyCls Model.ClsTerm Proofs.SimplClassicTotal Proofs.ParserImage Proofs.TauDepth.
 Open Scope string_scope.
 
 (* fresh-name searches (`while taken.contains(..)`, `find(..).unwrap()`) never run out: with fuel
@@ -87,6 +91,43 @@ Theorem C16_classic_portfolio_no_panic :
     run_strategy_opt fuel portfolio_classic_opt s F <> RPanic.
 Proof. exact classic_no_panic. Qed.
 Print Assumptions C16_classic_portfolio_no_panic.
+
+(* F20 (stack overflow on deeply nested input): what the model says about DEPTH - and no more.  `val` (tau_star.rs:410)
+   recurses once per operator of the term, and the formula it returns nests between 2 and 5 connective / quantifier nodes
+   per operator: the nesting depth of what tau* hands to the later stages (simplification, gamma, the TPTP printer - all
+   recursive traversals) is proportional to the nesting depth of the input, with no bound.  tdepth counts the operator nodes
+   on the longest path of a term, fdepth the nodes on the longest path of a formula (Proofs/TauDepth.v).  These theorems do
+   not mention a stack: frame sizes, the pest parser and the Rust recursion itself are outside the model; the aborting
+   depths are measured on the binary (docs/C16.md) - `verify --no-simplify` aborts at 2333 x `-`, 1556 x `1+`, 1166 x `1..`,
+   i.e. by the three exact theorems at formula depth 4668, 4669, 4665. *)
+Theorem C16_val_depth_linear : forall (t : term) (z : var),
+  2 * tdepth t + 1 <= fdepth (val t z) /\ fdepth (val t z) <= 5 * tdepth t + 1.
+Proof. exact val_depth_linear. Qed.
+Print Assumptions C16_val_depth_linear.
+(* `p(` + (n+1) x `-` + `1).` *)
+Theorem C16_val_neg_chain_depth : forall (n : nat) (t : term) (z : var), leaf t ->
+  fdepth (val (neg_chain (S n) t) z) = 2 * S n + 2.
+Proof. exact val_neg_chain_depth. Qed.
+Print Assumptions C16_val_neg_chain_depth.
+(* `p(1+1+..+1).` with n operators + - * (anthem parses the chain left-nested) *)
+Theorem C16_val_left_chain_total_depth : forall (o : abinop) (n : nat) (t : term) (z : var), leaf t ->
+  match o with AAdd | ASub | AMul => True | _ => False end ->
+  fdepth (val (left_chain o n t) z) = 3 * n + 1.
+Proof. exact val_left_chain_total_depth. Qed.
+Print Assumptions C16_val_left_chain_total_depth.
+(* `p(1..1.. ..1).` with n intervals *)
+Theorem C16_val_left_chain_interval_depth : forall (n : nat) (t : term) (z : var), leaf t ->
+  fdepth (val (left_chain AInterval n t) z) = 4 * n + 1.
+Proof. exact val_left_chain_interval_depth. Qed.
+Print Assumptions C16_val_left_chain_interval_depth.
+(* non-vacuity: the functions compute, on the shapes of the recorded inputs *)
+Example C16_val_depth_witnesses :
+  let one := TPre (PNum 1) in let z := gvar "Z" in
+  leaf one /\ tdepth (neg_chain 3 one) = 3 /\
+  fdepth (val (neg_chain 3 one) z) = 8 /\ fdepth (val (left_chain AAdd 3 one) z) = 10 /\
+  fdepth (val (left_chain AInterval 3 one) z) = 13 /\ fdepth (val (left_chain ADiv 3 one) z) = 16 /\
+  fdepth (val (Asp.TBin AAdd one (Asp.TBin AAdd one (Asp.TBin AAdd one one))) z) = 8.
+Proof. cbv zeta. repeat split; vm_compute; reflexivity. Qed.
 
 (* witnesses of the known classes (replayed on the real binary by bin/check C16), the regression case
    of the repaired F3b, and boundary cases *)
